@@ -5,6 +5,21 @@ import json, os
 HERE = os.path.dirname(os.path.dirname(os.path.abspath(__file__)))
 
 CHECKS = {
+ "C06": dict(
+    design="DESIGN.md §3 C06",
+    technique="property-based testing (Hypothesis); oracles: libxml2 schema compilation and validation of everything spyne emits, lxml-vs-soft verdict differential arbitrated by an independent constraint predicate",
+    text="Exploration: for generated universes (multi-namespace, inheritance, attributes, enums, restrictions) the validation schema and the schemas embedded in the WSDL (written out and compiled independently by libxml2) must compile; every request emitted by spyne's own client and every response emitted by the server for conformant boundary-biased values must validate (XmlDocument/Soap11/Soap12); and C05's constrained types x positions x near-boundary logical requests are sent to validator='lxml' and validator='soft', whose verdicts must agree for the shared facets. Held on everything explored; not a proof.",
+    note="Trusted: libxml2 as schema processor; the reference predicate of C05 to say which side is wrong."),
+ "C16": dict(
+    design="DESIGN.md §3 C16",
+    technique="property-based testing (Hypothesis) over generated class trees; oracles: exact runtime class + field equality at the server function, the spyne client and independent reference decoders; QName resolution of type markers inside the transmitted document",
+    text="Exploration: generated class trees (depth <=3, subclasses in the base's namespace), signatures taking/returning the base class, arrays and repeated members of it holding mixed subclasses, for XmlDocument/Soap11/Soap12 and JSON/YAML/MessagePack with ignore_wrappers=False, polymorphic on and off, in both directions: with polymorphism the receiver must rebuild the same subclass with equal fields and the type marker must resolve in the document and name a schema type; without it exactly the declared class's members travel; members appear ancestors-first. Held on everything explored; not a proof.",
+    note="Trusted: pbt/ref_xml.py and pbt/ref_dict.py decoders. MessagePack requests come from the reference codec (spyne's msgpack client cannot be read back by its own server, recorded in DESIGN)."),
+ "C18": dict(
+    design="DESIGN.md §3 C18",
+    technique="property-based differential testing (Hypothesis): NullServer vs XmlDocument / Soap11 / JsonDocument wire paths decoded by independent reference decoders",
+    text="Exploration: generated signatures in the body styles NullServer supports (wrapped, out_bare, empty, bare with a complex argument passed field-wise), 0-4 arguments, 0-3 returns, outcomes return / raised Fault / generator for an Iterable / Ignored, positional / keyword / mixed calls: the NullServer result or raised fault and the reference-decoded wire replies must both equal the scripted outcome, the function must see equal arguments on every path, and an Ignored return must reach the direct caller but be empty on the wire. Held on everything explored; not a proof.",
+    note="Trusted: reference decoders; the fault decoders of C09."),
  "C03": dict(
     design="DESIGN.md §3 C03",
     technique="property-based testing (Hypothesis) with metamorphic permutation of query pairs; oracles: recording user function + independent reference flattening",
